@@ -924,3 +924,40 @@ func TestHijackAddTriples(t *testing.T) {
 	sec.Bounds["body"] = "file40"
 	runHijackCases(t, sec, cases)
 }
+
+// TestManyHeaderExtractions: a run of hijacked requests each of which makes
+// the proxy fetch the daemon's headers again (cold cache), against a daemon
+// that answers that request with a body like a real one; then a relayed
+// request. Every one of them is answered: the proxy's side requests do not use
+// up whatever it needs to keep serving.
+func TestManyHeaderExtractions(t *testing.T) {
+	sec := R.Sec("hijack/many-header-extractions-then-relay")
+	coldHeaders = true
+	defer func() { coldHeaders = false }()
+	g, err := newRig()
+	if err != nil {
+		R.Broken("many-header-extractions: %v", err)
+		return
+	}
+	defer g.close()
+	g.d.auxBody = true
+	const runLen = 100
+	for i := 0; i < runLen; i++ {
+		o := g.do("POST", "/api/v0/pin/ls", nil, "", 200, []byte("{}"))
+		ok := o.ClientErr == "" && o.Status == 200
+		R.Eval(sec, fmt.Sprintf("hijacked-request-%d|answered=%v", i+1, ok), true)
+		if !ok {
+			R.Violation("C12|pin/ls|after-many-header-extractions|no-answer", map[string]interface{}{
+				"request_number": i + 1, "client_error": o.ClientErr, "status": o.Status, "extract_headers_ttl": "1ns", "daemon_answers_extraction_with_a_body": true})
+			return
+		}
+	}
+	o := g.do("POST", "/api/v0/id", nil, "", 200, []byte(`{"ID":"x"}`))
+	ok := o.ClientErr == "" && o.Status == 200 && len(o.Daemon) == 1
+	R.Eval(sec, fmt.Sprintf("relayed-request-after-%d|answered=%v", runLen, ok), true)
+	if !ok {
+		R.Violation("C12|passthrough|after-many-header-extractions|no-answer", map[string]interface{}{
+			"after_hijacked_requests": runLen, "client_error": o.ClientErr, "status": o.Status, "reached_daemon": len(o.Daemon)})
+	}
+	sec.Bounds["run"] = fmt.Sprintf("%d hijacked requests, each with a header extraction answered with a body, then one relayed request", runLen)
+}
